@@ -356,6 +356,10 @@ struct Type {
   Token *name;
   Token *name_pos;
 
+  // Parameter: the variable that stands for it while the rest of the
+  // parameter list is parsed (`int n, int a[n]`), and afterwards
+  Obj *param_var;
+
   // Array
   int array_len;
 
